@@ -50,3 +50,11 @@ GROUPS.append(dict(cls='P', tu='C10_ms_init_p.c', canary='real', unwind=1, timeo
     functions=['opus_multistream_decoder_get_size', 'opus_multistream_decoder_init', 'validate_layout'],
     trusted=['stub sizes/init of the single-stream decoder (C11); the init stub asserts that every state it is handed lies inside get_size() bytes'],
     what='multistream decoder get_size/init for any stream and channel counts (loop contracts on the mapping copy and the two stream loops): illegal counts and layouts rejected, layout stored as given, one decoder per stream, coupled first, states back to back inside get_size()'))
+
+GROUPS.append(dict(name='surround_layouts', cls='F', tu='C10_surround_layout.c', entry='h_surround_layout', dfcc=False, canary='real', expect_canaries=3, unwind=257, timeout=1200,
+    replace_calls=['opus_multistream_encoder_init_impl:verif_init_impl'],
+    functions=['opus_multistream_surround_encoder_init', 'opus_multistream_surround_encoder_get_size', 'opus_multistream_encoder_get_size', 'validate_ambisonics', 'isqrt32'],
+    trusted=['recording stub of opus_multistream_encoder_init_impl (calls redirected; the real one is checked in ms_encoder_init*)', 'stub sizes of the single-stream encoder'],
+    assumptions=['opus_multistream_surround_encoder_get_size is called with 1 <= channels <= 255 only (for family 255 it does not check the limit and its int arithmetic overflows far beyond it)'],
+    bounds='every int channel count and mapping family (fill loops unwound to 256, unwinding assertions on)',
+    what='surround / ambisonics / discrete encoder layouts for mapping families 0, 1, 2, 255 against RFC 7845 5.1.1 and RFC 8486 3.1: bijective mapping, left/right pairs coupled, LFE on its own last mono stream and flagged, ACN channels on mono streams in order with the non-diegetic pair coupled, unsupported combinations rejected, size query consistent'))
